@@ -152,14 +152,36 @@ func c11Snapshot(root string) []c11Entry {
 	return out
 }
 
+// Strings and paths are interned: a shard defines every distinct string once (zsN) and the case terms
+// refer to the names.  (Type-checking long string literals dominates the cost of a shard otherwise.)
+type c11Interner struct {
+	names map[string]string
+	defs  []string
+}
+
+var c11In = &c11Interner{names: map[string]string{}}
+
+func (in *c11Interner) def(prefix, key, term string) string {
+	if n, ok := in.names[prefix+"\x00"+key]; ok {
+		return n
+	}
+	n := prefix + strconv.Itoa(len(in.defs))
+	in.names[prefix+"\x00"+key] = n
+	in.defs = append(in.defs, "Definition "+n+" := "+term+".\n")
+	return n
+}
+
+func c11Str(s string) string { return c11In.def("zs", s, vu.Str(s)) }
+
 func c11Path(p string) string {
-	return vu.Pair(vu.Str(filepath.Dir(p)), vu.Str(filepath.Base(p)))
+	return c11In.def("zp", p, vu.Pair(c11Str(filepath.Dir(p)), c11Str(filepath.Base(p))))
 }
 
 func c11Disk(es []c11Entry) string {
 	it := make([]string, len(es))
 	for i, e := range es {
-		it[i] = vu.Pair(c11Path(e.Path), vu.App("FD", vu.Str(e.Bytes), vu.N(uint64(e.Mode))))
+		et := vu.Pair(c11Path(e.Path), vu.App("FD", c11Str(e.Bytes), vu.N(uint64(e.Mode))))
+		it[i] = c11In.def("ze", et, et)
 	}
 	return vu.List(it)
 }
@@ -208,7 +230,8 @@ func c11EventTerm(e c11Event) string {
 	}
 	it := make([]string, len(e.Files))
 	for i, f := range e.Files {
-		it[i] = vu.App("F", c11Path(f.Path), vu.Str(f.Bytes), vu.Bool(f.Secret))
+		ft := vu.App("F", c11Path(f.Path), c11Str(f.Bytes), vu.Bool(f.Secret))
+		it[i] = c11In.def("zf", ft, ft)
 	}
 	return vu.App("Replace", vu.List(it), c11Outcomes(e.Faults))
 }
@@ -559,7 +582,11 @@ func TestVerifC11(t *testing.T) {
 	for i, p := range ignoreFilePaths {
 		ign[i] = c11Path(p)
 	}
-	world := vu.App("W", vu.StrList(folders), vu.List(ign), vu.N(cmode))
+	fl := make([]string, len(folders))
+	for i, f := range folders {
+		fl[i] = c11Str(f)
+	}
+	world := c11In.def("zw", "world", vu.App("W", vu.List(fl), vu.List(ign), vu.N(cmode)))
 
 	emit := func(kind string, sc c11Scenario, h []c11Event, nfaults int) {
 		obs, fired := c11Run(t, folders, sc.d0, dirs, h)
@@ -616,7 +643,7 @@ func TestVerifC11(t *testing.T) {
 		for ei, o := range obs {
 			for oi, kind := range o.Ops {
 				if kind == "write" {
-					singles = append(singles, c11Fault{ei, oi, 0}, c11Fault{ei, oi, 1 + r.Intn(12)}, c11Fault{ei, oi, 1 << 20})
+					singles = append(singles, c11Fault{ei, oi, 0}, c11Fault{ei, oi, 1 + r.Intn(12)}, c11Fault{ei, oi, 4000})
 				} else {
 					singles = append(singles, c11Fault{ei, oi, 0})
 				}
@@ -662,7 +689,7 @@ func TestVerifC11(t *testing.T) {
 			emit(p.kind, sc, c11Apply(sc.h, p.faults, k%4 == 0), len(p.faults))
 		}
 	}
-	out.Close("C11.Check", "")
+	out.Close("C11.Check", strings.Join(c11In.defs, ""))
 	_ = errors.New
 	_ = fmt.Sprint
 }
